@@ -443,6 +443,12 @@ impl TransformerContext {
         self.element_stack.pop()
     }
 
+    /// Is the document's own list of elements being processed (as opposed to the
+    /// content of some element)?
+    pub fn at_document_level(&self) -> bool {
+        self.current_depth == 0
+    }
+
     pub fn inc_depth(&mut self) -> Result<()> {
         // Check before incrementing: on failure the caller returns without
         // a matching dec_depth(), so the counter must be left unchanged.
